@@ -612,14 +612,8 @@ private:
 
                         nano *= uint64_t(nanos_in_second);
 
-                        if (nano < 0)
-                        {
-                            nano -= nsec;
-                        }
-                        else
-                        {
-                            nano += nsec;
-                        }
+                        // the nanoseconds are added to the seconds, also for negative seconds
+                        nano += nsec;
 
                         text_buffer_.clear();
                         nano.write_string(text_buffer_);
